@@ -569,10 +569,10 @@ Fixpoint nav_fuel (n : node) : nat :=
   end.
 
 (* the bound that the fuel of the machine's loops must exceed: the number of units, of dynamic tags, and
-   the navigation fuel of the largest unit tree *)
+   twice the navigation fuel of the largest unit tree (iter_DIEs spends two steps per level of its stack) *)
 Definition fuel_bound (F : file) : nat :=
   (length (f_units F) + length (f_dyns F) +
-   fold_right (fun ud acc => Nat.max (nav_fuel (ud_tree ud)) acc) 0 (f_units F) + 4)%nat.
+   2 * fold_right (fun ud acc => Nat.max (nav_fuel (ud_tree ud)) acc) 0 (f_units F) + 4)%nat.
 Definition fuel_ok (F : file) (fuel : nat) : bool := (fuel_bound F <? fuel)%nat.
 
 (* the finding lineprogram-header-file_entry-grows-after-get_entries concerns exactly the query
@@ -609,23 +609,6 @@ Definition ex_file_gen (defs : Z) : file :=
 Definition ex_file : file := ex_file_gen 2.      (* the line program executes two DW_LNE_define_file *)
 Definition ex_file0 : file := ex_file_gen 0.     (* ... none *)
 
-(* entry-tree navigation (get_parent, and resuming the generators iter_children / iter_siblings / iter_DIEs) *)
-Definition nav_frame (f : aframe) : bool :=
-  match f with AFChildren _ _ | AFSiblings _ _ _ | AFSubtree _ _ => true | _ => false end.
-Definition nav_op (afs : list aframe) (o : op) : bool :=
-  match o with
-  | Parent _ _ => true
-  | Next slot => nav_frame (nth slot afs AFEmpty)
-  | _ => false
-  end.
-
-(* a history all of whose operations satisfy [ok] in the iterator positions where they are issued *)
-Fixpoint hist_ok (F : file) (ok : list aframe -> op -> bool) (afs : list aframe) (h : list op) : bool :=
-  match h with
-  | [] => true
-  | o :: r => ok afs o && hist_ok F ok (fst (spec_step F afs o)) r
-  end.
-
 (* operations that are queries in the narrow sense: neither create nor advance a generator *)
 Definition is_query (o : op) : bool :=
   match o with
@@ -633,7 +616,3 @@ Definition is_query (o : op) : bool :=
   | NewIterSections _ | NewIterSymbols _ | NewIterTags _ | Next _ => false
   | _ => true
   end.
-
-(* what the proved part of the step theorem covers: everything except entry-tree navigation *)
-Definition plain_ok (F : file) (afs : list aframe) (o : op) : bool := op_ok F o && negb (nav_op afs o).
-
